@@ -51,6 +51,11 @@ CLAIMED = {
   note="Trusted: TLC, tools/jbkdec.py (own CRC-32C, BLAKE3 and mask).",
   technique="TLA+ spec (Packaging.tla SetLocation) + trace validation of rewrite histories (PackagingTrace.tla) with an independent byte-level oracle",
   design="5 C12"),
+ "C13": dict(
+  text="Views.tla gives every public view operation (cut on regions and slices, as_slice, slice->region, stream(), From<ByteRegion> for ByteStream, read with any buffer size incl. short reads, get_slice) its denotation as a range of the content plus cursor; TLC checks Nested, Sizes, ConversionsAgree, ObsInside, ReadsTile on every behaviour over contents of length 4-6 with up to 4 views (370k states). TLC-simulated behaviours of 9 operations (nesting to depth 3+, all conversions, read partitions) are scaled to the real length and replayed on seven source kinds reached through the public API (in-memory pack, file region of a raw cluster, clusters decoded in the background by zstd / lz4 / lzma, reader::Container, entry bytes in a small buffer and in an mmap >= 4 KiB), none at offset 0 of its source; ViewsTrace.tla accepts a step only if the returned bytes are exactly the denoted range (located in the position-coded content) and size(), offset(), size_left() agree with it.",
+  note="Trusted: TLC; the orchestrator's search of the returned bytes in the expected content. Out-of-range arguments (API misuse) are not exercised.",
+  technique="TLA+ spec (Views.tla) model-checked with TLC + TLC-simulated behaviours replayed through the real API on all source kinds + trace validation (ViewsTrace.tla)",
+  design="5 C13"),
 }
 
 REASON_TODO = "check not built yet (work in progress; see DESIGN.md section 9 for the order of work)"
